@@ -17,7 +17,7 @@ def execOp (op : String) (a : List Int) : Option (Option String) :=
   match op, a with
   | "ec.of", [y, m, d, h, mi, s] => some <|
       if !timeOk y m d h mi s then none else
-      (ofTime E (y, m, d, h, mi, s)).map fun e => s!"{e.year} {e.month} {e.day} {e.hour}"
+      (ofTimeViaLunar E (y, m, d, h, mi, s)).map fun e => s!"{e.year} {e.month} {e.day} {e.hour}"
   | "ec.search", [yp, mp, dp, hp, y0, y1] => some <|
       let ec : EightChar := ⟨SC.indexOf yp 60, SC.indexOf mp 60, SC.indexOf dp 60, SC.indexOf hp 60⟩
       (solarTimes E ec y0 y1).map fun l =>
